@@ -15,7 +15,8 @@ inductive Chg (s : St) (tr : Tr) (p : Nat) (tp tp' : Tp) : Prop
   | early (h : tp.early = true)
   | ndet (h0 : ∃ t, tr = .actionDone t p) (h1 : tp.st = .added) (h2 : tp'.st = .inCbN) (h3 : tp'.addAt = tp.addAt)
          (h4 : tp'.cbAt = s.clock)
-  | ndec (h1 : tp.st = .inCbN) (h2 : tp'.st = .done) (h3 : tp'.addAt = tp.addAt) (h4 : tp'.cbAt = tp.cbAt)
+  | ndec (h0 : ∃ t rest, tr = .nestDec t ∧ s.nests[t]? = some (p :: rest)) (h1 : tp.st = .inCbN) (h2 : tp'.st = .done)
+         (h3 : tp'.addAt = tp.addAt) (h4 : tp'.cbAt = tp.cbAt)
 
 theorem step?_chg {s s' : St} {tr : Tr} (hI : Inv s) (hS : SInv s) (hs : step? s tr = some s') :
     s'.tps = s.tps ∨ ∃ (p : Nat) (tp tp' : Tp), s.tps[p]? = some tp ∧ s'.tps = s.tps.set p tp' ∧ tp'.early = tp.early ∧ Chg s tr p tp tp' := by
@@ -62,7 +63,10 @@ theorem step?_chg {s s' : St} {tr : Tr} (hI : Inv s) (hS : SInv s) (hs : step? s
   | dec t =>
     simp only [step?] at hs; split at hs
     · split at hs
-      · rename_i p hbt _ _ tp htp; cases hs
+      · rename_i p hbt _ _ tp htp
+        split at hs
+        case isFalse => cases hs
+        cases hs
         have hst : tp.st = .inCb := by
           obtain ⟨x, hx, hxs, _⟩ := hI.cbFwd t p hbt
           rw [htp] at hx; cases hx; exact hxs
@@ -154,11 +158,11 @@ theorem step?_chg {s s' : St} {tr : Tr} (hI : Inv s) (hS : SInv s) (hs : step? s
   | nestDec t =>
     simp only [step?] at hs; split at hs
     · split at hs
-      · rename_i q hsu _ tp htp; cases hs
+      · rename_i q rest _ hsu _ tp htp; cases hs
         have hst : tp.st = .inCbN := by
-          obtain ⟨x, hx, hxs, _⟩ := hI.nFwd t q hsu
+          obtain ⟨x, hx, hxs, _⟩ := hI.nFwd t _ q hsu List.mem_cons_self
           rw [htp] at hx; cases hx; exact hxs
-        exact Or.inr ⟨q, tp, _, htp, rfl, rfl, .ndec hst rfl rfl rfl⟩
+        exact Or.inr ⟨q, tp, _, htp, rfl, rfl, .ndec ⟨t, rest, rfl, hsu⟩ hst rfl rfl rfl⟩
       · cases hs
     · cases hs
 
